@@ -772,6 +772,9 @@ pub struct SignInfo {
     /// challenge polynomial of the first attempt that passed the z / r0 tests (it does not depend on t0)
     pub first_c_after_zr0: Option<Poly>,
     pub mu: Vec<u8>,
+    /// for every attempt rejected by the z-norm test: flat index (polynomial * 256 + coefficient) of the first coefficient
+    /// of z outside the bound
+    pub first_bad_z: Vec<usize>,
 }
 pub fn mu_of(tr: &[u8], m_prime: &[u8]) -> Vec<u8> { h(&[tr, m_prime], 64) }
 
@@ -816,6 +819,7 @@ pub fn sign_internal_ctx(ctx: &SkCtx, m_prime: &[u8], rnd: &[u8; 32], opts: &Sig
         kappa += p.l;
         if !opts.skip_z_check && z_norm >= p.gamma1 - p.beta {
             info.rejects.push(Reject::ZNorm);
+            info.first_bad_z.push((0..p.l * 256).find(|&n| mod_pm(i64::from(z[n / 256][n % 256]), Q).abs() >= p.gamma1 - p.beta).unwrap_or(usize::MAX));
             if z_norm == p.gamma1 - p.beta && r0_norm < p.gamma2 - p.beta {
                 info.boundary_rejections.push("z_norm==gamma1-beta");
             }
